@@ -134,6 +134,34 @@ func (a *Act) reflectIntrinsic(name string, args []Value) (Value, bool) {
 		a.mayPanic(bad, "reflect: call of reflect.Value.FieldByName on non-struct Value")
 		out.nilG = Not(found)
 		return RV{iv: mergeSameTypes(out)}, true
+	case "(reflect.Value).IsNil":
+		// nil-able kinds only (slice, pointer, interface, map, func, chan); panics on the others
+		rv := args[0].(RV)
+		res := False
+		bad := rv.iv.nilG
+		for _, al := range rv.iv.alts {
+			switch v := al.val.(type) {
+			case SliceV:
+				res = Or(res, And(al.g, v.arr.nilG))
+				if len(v.arr.alts) == 0 {
+					res = Or(res, al.g)
+				}
+			case PtrV:
+				res = Or(res, And(al.g, v.nilG))
+			case IfaceV:
+				res = Or(res, And(al.g, v.nilG))
+			case MapV:
+				if v.obj == 0 {
+					res = Or(res, al.g)
+				} else if v.nilG != nil {
+					res = Or(res, And(al.g, v.nilG))
+				}
+			default:
+				bad = Or(bad, al.g)
+			}
+		}
+		a.mayPanic(bad, "reflect: call of reflect.Value.IsNil on a value that cannot be nil")
+		return res, true
 	case "(reflect.Value).Len":
 		rv := args[0].(RV)
 		n := BV(64, 0)
